@@ -163,6 +163,10 @@ func (c *Class) Evaluation(
 			p.Fatal(ctx, err)
 		}
 
+		if nextT.IsNewLineIdentifier() {
+			return fmt.Errorf("superclass name is missing")
+		}
+
 		classNode := base.ClassNode{Frame: ctx.GetFrame(), Class: ctx.GetClass()}
 
 		parentFrame, parentNamespace, parentClass :=
